@@ -1,12 +1,12 @@
 #!/usr/bin/env python3
-"""Re-pins lean/Kvql/Properties/C06.lean `expectedPartialOps` to the inventory regenerated from the CURRENT /repo.
+"""Re-pins lean/Kvql/Properties/C06Inventory.lean `expectedPartialTotals` to the totals regenerated from the CURRENT /repo.
 Run only after a deliberate change of /repo (a fix: commit) whose new partial operations have been reviewed."""
 import re, subprocess
 subprocess.run(["/verif/bin/kvqlextract", "-repo", "/repo", "-out", "/verif/lean/Kvql/Generated"], check=True)
 inv = open('/verif/lean/Kvql/Generated/Inventory.lean').read()
-body = re.search(r"def partialOps : List \(String × Nat × Nat × Nat × Nat\) := \[\n(.*?)\n\]", inv, re.S).group(1)
-p = '/verif/lean/Kvql/Properties/C06.lean'
+tot = re.search(r"def partialTotals : Nat × Nat × Nat × Nat := (\([0-9, ]+\))", inv).group(1)
+p = '/verif/lean/Kvql/Properties/C06Inventory.lean'
 s = open(p).read()
-s2 = re.sub(r"(def expectedPartialOps : List \(String × Nat × Nat × Nat × Nat\) := \[\n).*?(\n\]\n)", lambda m: m.group(1) + body + m.group(2), s, flags=re.S)
+s2 = re.sub(r"(def expectedPartialTotals : Nat × Nat × Nat × Nat := )\([0-9, ]+\)", lambda m: m.group(1) + tot, s)
 open(p, 'w').write(s2)
-print("re-pinned" if s2 != s else "unchanged")
+print("re-pinned " + tot if s2 != s else "unchanged " + tot)
